@@ -161,3 +161,5 @@ func verifCmpU64(a, b uint64) int {
 }
 func verifIfaceEq(a, b interface{}) bool { return verifDeepEq(a, b) }
 func verifStrSame(a, b string) bool { return a == b }
+func verifNondetKey(name string) uint64 { return vrNext(name) }
+func verifNondetVal(name string) uint64 { return vrNext(name) }
